@@ -67,7 +67,8 @@ def check(run, prog):
             pass
         return pt
 
-    for has_t, clsname, dtype in ((True, "BasebandSignal", "complex128"), (False, "BasebandSignal", "complex128"), (True, "Signal", "float64")):
+    for has_t, clsname, dtype in ((True, "BasebandSignal", "complex128"), (False, "BasebandSignal", "complex128"), (True, "Signal", "float64"),
+                                  (True, "Signal", "int16")):
         z = make_signal(prog, clsname, nchan=2, start_time=has_t, dtype=dtype)
         tag = ("" if has_t else " (no start_time)") + ("" if dtype.startswith("complex") else " [real data]")
         # ----------------------------------------------------------- whole-sample t
